@@ -84,3 +84,36 @@ func VerifHarness_C02_exec_block_validator_sets() {
 	}
 	vAssert(st.LastBlockHeight == 1, "X-state-at-the-block")
 }
+
+
+// A block that does not fit the state (wrong height, wrong previous block id, wrong app hash) is
+// refused by State.ExecBlock for every caller — consensus (round >= 0) and fast sync / replay
+// (round -1) alike — and leaves the state as it was.
+func VerifHarness_C02_exec_block_refuses_misfit() {
+	h := vNewCS(4, 1, 1)
+	st := h.cs.state
+	var log []string
+	sm.VerifSetDB(st, &vOrderDB{name: "state", log: &log})
+	st.SetBlockExecutable(vValChangeExec{})
+	st.SetBlockVerifier(h.cs) // as the node wires it: the state validates through the consensus engine's ValidateBlock
+	data := &types.Data{}
+	lc := &types.Commit{}
+	hd := &types.Header{ChainID: vChain, Height: 1, Time: time.Unix(1600000000, 0), LastBlockID: st.LastBlockID,
+		AppHash: st.AppHash, ReceiptsHash: st.ReceiptsHash, ValidatorsHash: st.Validators.Hash(),
+		ProposerAddress: st.Validators.Validators[0].Address, DataHash: data.Hash(), LastCommitHash: lc.Hash()}
+	switch vNondetLen("misfit", 0, 2) {
+	case 0:
+		hd.Height = 2 // out of order
+	case 1:
+		hd.LastBlockID = types.BlockID{Hash: []byte{0x66}, PartsHeader: types.PartSetHeader{Total: 1, Hash: []byte{0x66}}}
+	default:
+		hd.AppHash = []byte{0xEE}
+	}
+	b := &types.Block{Header: hd, Data: data, LastCommit: lc}
+	round := int64(vNondetLen("round", -1, 0))
+	height0, id0 := st.LastBlockHeight, st.LastBlockID
+	err := st.ExecBlock(h.evsw, b, b.MakePartSet(4096).Header(), round) // real
+	vReach("misfit-offered")
+	vAssert(err != nil, "X-block-that-does-not-fit-the-state-is-refused-whatever-the-round")
+	vAssert(st.LastBlockHeight == height0 && st.LastBlockID.Equals(id0) && len(log) == 0, "X-refused-block-leaves-the-state")
+}
